@@ -15,6 +15,10 @@
 (* udck_pre / udck_post: checksums of the user's own arrays inside the         *)
 (* dictionaries handed to the export, before and after it.                     *)
 (*                                                                             *)
+(* An event with a = "Export" is an export that was never read back (recorded  *)
+(* from the repository's own tests): only the clauses about the export call    *)
+(* itself apply (ExportDoesNotAlterMesh, UserArraysNotModified).               *)
+(*                                                                             *)
 (* Model drift (evidence only): the transcription DecodeImpl(EncodeImpl(.)),    *)
 (* evaluated on the code's own t2f / f2t tables, is compared with what the     *)
 (* code returned (index arrays and flags); counted, never a verdict.           *)
@@ -58,6 +62,9 @@ HarnessInputWellFormed(e) ==
 Clauses(e) ==
   IF ~HarnessInputWellFormed(e) THEN [HarnessInputWellFormed |-> FALSE]
   ELSE IF e.err # "" THEN [NoUnexpectedError |-> FALSE]
+  ELSE IF e.a = "Export" THEN [ NoUnexpectedError |-> TRUE,
+                                ExportDoesNotAlterMesh |-> ExportDoesNotAlterMesh(e),
+                                UserArraysNotModified |-> UserArraysNotModified(e) ]
   ELSE LET base == RoundTripClauses(e.pre, e.post) IN
        IF ~base.WellFormed THEN base @@ [NoUnexpectedError |-> TRUE]
        ELSE base @@ [ NoUnexpectedError |-> TRUE,
@@ -67,7 +74,7 @@ Clauses(e) ==
 
 \* model drift (evidence only, never a verdict): does the transcription predict what the code returned?
 Drift(e) ==
-  IF HarnessInputWellFormed(e) /\ e.err = "" /\ e.codec = "celldata" /\ RTWellFormed(e.pre) /\ RTWellFormed(e.post) /\ ConnOK(e)
+  IF HarnessInputWellFormed(e) /\ e.a = "RT" /\ e.err = "" /\ e.codec = "celldata" /\ RTWellFormed(e.pre) /\ RTWellFormed(e.post) /\ ConnOK(e)
   THEN IF AsTranscribed(e) THEN [Drift_checked |-> TRUE] ELSE [Drift_checked |-> TRUE, Drift_mismatch |-> TRUE]
   ELSE <<>>
 
